@@ -122,6 +122,7 @@ class SimSocket:
         self.timeout = None
         self.closed = False
         self.half_shut = False
+        self.peer = None
         self.inbox = []            # heap of (arrival, seq, data, src_addr)
 
     # -- API used by UDPObject -------------------------------------------------
@@ -235,7 +236,7 @@ class SimSocket:
         self.peer = (addr[0], int(addr[1]))
 
     def send(self, data):
-        peer = getattr(self, "peer", None)
+        peer = self.peer
         if peer is None:
             raise OSError(errno.EDESTADDRREQ, "Destination address required")
         return self.sendto(data, peer)
